@@ -1178,6 +1178,8 @@ def jnp_repeat(a, repeats, axis=None, **kw):
     repeats = _dim(repeats)
     if not isinstance(repeats, int):
         raise Top(f"repeat count {repeats!r}")
+    if repeats == 1:
+        return a
     if isinstance(a.axes[k], str):
         return AT(a.axes[:k] + (f"Rep({a.axes[k]},{repeats})",) + a.axes[k + 1:], a.data)
     ck = a.cidx(k)
@@ -1197,6 +1199,11 @@ def jnp_tile(a, reps):
         if isinstance(r, SymDim):
             if isinstance(axes[k], str):
                 axes[k] = f"Tile({axes[k]},{r.name})"
+            elif axes[k] == 1:
+                # a single row tiled |A| times: A rows, all equal
+                ck = AT(axes, data).cidx(k)
+                data = np.take(data, 0, axis=ck)
+                axes[k] = r.name
             else:
                 raise Top("symbolic tile of a concrete axis")
             continue
